@@ -62,7 +62,8 @@ func (t *Term) String() string {
 func mk(op, name string, args ...*Term) *Term { return &Term{Op: op, Name: name, Args: args} }
 
 type termer struct {
-	memo map[ssa.Value]*Term
+	memo   map[ssa.Value]*Term
+	truncs int // how often the depth bound cut a term (a term built without a cut is exact at any depth)
 }
 
 func newTermer() *termer { return &termer{memo: map[ssa.Value]*Term{}} }
@@ -81,11 +82,17 @@ func (tm *termer) term(v ssa.Value, d int) *Term {
 		return t
 	}
 	if d > maxTermDepth {
+		tm.truncs++
 		return opaque("unk", v)
 	}
+	before := tm.truncs
 	t := tm.build(v, d)
 	t.V = v
-	tm.memo[v] = t
+	// memoise only what does not depend on the depth at which the value happened to be reached first: a term cut by
+	// the depth bound is kept only when it was built from the top (d == 0), so results do not depend on query order
+	if tm.truncs == before || d == 0 {
+		tm.memo[v] = t
+	}
 	return t
 }
 
